@@ -19,7 +19,9 @@ func applyKnownFindings(o *gen.Opts) {
 			o.AllowNullableEmbed = false
 		case "F4":
 			o.AllowNullableEmbedComplex = false
-		case "F9":
+		case "F10":
+			o.AllowDurationCastInOneof = false
+		case "F11":
 			o.AllowOneofInEmbedded = false
 		}
 	}
